@@ -38,8 +38,8 @@ PROPS = {
         assumptions=['callbacks do not raise (a raising callback leaves its entry in the list: outside the well-posed class)',
                      'registration numbers and logged pools are ghost fields of the model']),
     'C12': dict(
-        vfile='Props/C12.v', ties=['Tie/TieEnv.v', 'Tie/TieMaint.v'],
-        families=[('maint', 1500, 40000, 'small', 'large')],
+        vfile='Props/C12.v', ties=['Tie/TieEnv.v', 'Tie/TieMaint.v', 'Tie/TieFloor.v'],
+        families=[('maint', 1500, 40000, 'small', 'large'), ('floor', 120, 3000, 'small', 'large')],
         rule='F_maint scenarios: capacities incl. 0 and infinity, needed capacities incl. 0 and above the total, durations incl. 0, duplicates, '
              'same-instant bursts, requests issued from start/end hooks; non-trivial = at least two orders started and an order had to wait; distinct by scenario text',
         explanation='Maintainer invariant + scan/creation/start/finish specifications for every request stream; system invariant (one live event per order in progress) '
